@@ -751,6 +751,61 @@ def proxy_keys(ctx: Ctx) -> None:
     b = repo.get(f"{A.PBW}.blockwise")
     ok = any(isinstance(n, ast.Assign) and isinstance(n.value, ast.BoolOp) and isinstance(n.value.op, ast.Or) and isinstance(n.value.values[0], ast.Name) and n.value.values[0].id == "in_names" and "in_names" in b.params for n in b.own_nodes())
     ctx.ob(b, None, ok, "primitive blockwise: index-notation keys are generated under the caller's in_names", sel="names:blockwise:array-names")
+    # a dictionary keyed by array name may hold only what is a property of the array itself
+    # (block counts): the same array can be passed twice with different index patterns, so
+    # anything positional (the index pattern) must travel positionally
+    bfl, bcfg = flow_of(repo, b), cfg_of(b)
+    ban = [s_ for ss in bfl.sites.values() for s_ in ss if s_.kind == "assign" and isinstance(s_.value, ast.BoolOp) and isinstance(s_.value.op, ast.Or) and isinstance(s_.value.values[0], ast.Name) and s_.value.values[0].id == "in_names"]
+    BAN = ban[0].name if ban else None
+    n_named = 0
+    for lp in [x for x in bcfg.stmts(ast.For)]:
+        it = lp.stmt.iter
+        if not (isinstance(it, ast.Call) and unparse(it.func) == "zip" and any(isinstance(a, ast.Name) and a.id == BAN for a in it.args) and isinstance(lp.stmt.target, ast.Tuple)):
+            continue
+        pos = [i for i, a in enumerate(it.args) if isinstance(a, ast.Name) and a.id == BAN][0]
+        tg = lp.stmt.target.elts
+        if pos >= len(tg) or not isinstance(tg[pos], ast.Name):
+            continue
+        name_var = tg[pos].id
+        # loop variables bound from the operand arrays, and what the loop derives from them
+        arr_pos = [i for i, a in enumerate(it.args) if isinstance(a, ast.Name) and {d_.kind for d_ in bfl.rdefs(a.id, lp.id)} <= {"assign"} and any("[::2]" in unparse(d_.value) for d_ in bfl.rdefs(a.id, lp.id) if d_.value is not None)]
+        derived = {tg[i].id for i in arr_pos if i < len(tg) and isinstance(tg[i], ast.Name)}
+        changed = True
+        while changed:
+            changed = False
+            for st in ast.walk(lp.stmt):
+                if isinstance(st, ast.Assign) and isinstance(st.targets[0], ast.Name) and st.targets[0].id not in derived and any(isinstance(x, ast.Name) and x.id in derived for x in ast.walk(st.value)):
+                    derived.add(st.targets[0].id)
+                    changed = True
+        for st in ast.walk(lp.stmt):
+            if isinstance(st, ast.Assign) and isinstance(st.targets[0], ast.Subscript) and isinstance(st.targets[0].slice, ast.Name) and st.targets[0].slice.id == name_var:
+                n_named += 1
+                intrinsic = any(isinstance(x, ast.Name) and x.id in derived for x in ast.walk(st.value))
+                ctx.ob(
+                    b,
+                    st,
+                    intrinsic,
+                    f"`{unparse(st, 50)}`: a table keyed by array name holds a property of the array"
+                    + ("" if intrinsic else " — it holds a per-argument value (not derived from the array): when one array is passed twice with different index patterns the later entry overwrites the earlier one"),
+                    sel=f"names:blockwise:by-name:{ctx.anon(b, st.targets[0].value, 20)}",
+                )
+    # the same obligation for tables built in one expression: {name: v for name, … in zip(names, …)}
+    # and dict(zip(names, xs))
+    arr_vars = {a_.id for lp_ in bcfg.stmts(ast.For) if isinstance(lp_.stmt.iter, ast.Call) for a_ in lp_.stmt.iter.args if isinstance(a_, ast.Name) and any(d_.value is not None and "[::2]" in unparse(d_.value) for d_ in bfl.rdefs(a_.id, lp_.id))}
+    for n_ in b.own_nodes():
+        if isinstance(n_, ast.DictComp) and isinstance(n_.generators[0].iter, ast.Call) and unparse(n_.generators[0].iter.func) == "zip" and any(isinstance(a, ast.Name) and a.id == BAN for a in n_.generators[0].iter.args):
+            zargs_ = n_.generators[0].iter.args
+            tg_ = n_.generators[0].target.elts if isinstance(n_.generators[0].target, ast.Tuple) else []
+            arr_t = {tg_[i].id for i, a in enumerate(zargs_) if i < len(tg_) and isinstance(tg_[i], ast.Name) and isinstance(a, ast.Name) and a.id in arr_vars}
+            n_named += 1
+            intrinsic = any(isinstance(x, ast.Name) and x.id in arr_t for x in ast.walk(n_.value))
+            ctx.ob(b, n_, intrinsic, f"`{unparse(n_, 50)}`: a table keyed by array name holds a property of the array" + ("" if intrinsic else " — it holds a per-argument value: a repeated array's later entry overwrites the earlier one"), sel="names:blockwise:by-name:dictcomp")
+        if isinstance(n_, ast.Call) and isinstance(n_.func, ast.Name) and n_.func.id == "dict" and n_.args and isinstance(n_.args[0], ast.Call) and unparse(n_.args[0].func) == "zip" and any(isinstance(a, ast.Name) and a.id == BAN for a in n_.args[0].args):
+            others = [a for a in n_.args[0].args if not (isinstance(a, ast.Name) and a.id == BAN)]
+            n_named += 1
+            intrinsic = bool(others) and all(isinstance(a, ast.Name) and a.id in arr_vars for a in others)
+            ctx.ob(b, n_, intrinsic, f"`{unparse(n_, 50)}`: a table keyed by array name holds a property of the array" + ("" if intrinsic else " — it holds a per-argument value: a repeated array's later entry overwrites the earlier one"), sel="names:blockwise:by-name:dict-zip")
+    ctx.need(n_named >= 1, "primitive blockwise: no table keyed by array name found (numblocks)")
     # index-notation key function: the coordinate map of an argument is bound by *position*
     # (the same array may appear twice with different index patterns, e.g. x 'ij' and x 'ji')
     mk = repo.get(f"{A.PBW}.make_blockwise_back_key_function")
